@@ -338,3 +338,22 @@ Definition netmask_text (n : net) : str :=
 (* (value, network, prefixlen, netmask) as str.format renders them *)
 Definition native_fields (n : net) : list str :=
   [addr_text n ++ [c_slash] ++ dec3 (net_len n); addr_text n; dec3 (net_len n); netmask_text n].
+
+(* ---------------------------------------------------------------- the expansion rendered by a text backend *)
+(* sigma/conversion/base.py convert_condition_field_eq_val_cidr, branch without cidr_expression, for a
+   backend with  eq "f=\"v\"",  or token " or ",  group "(...)",  value list  f in ("a", "b").
+   decide_convert_condition_as_in_expression: the OR of the patterns becomes a value list iff
+   convert_or_as_in is set and (in_expressions_allow_wildcards or no pattern contains a wildcard);
+   otherwise the patterns stay an OR, grouped when there is more than one. *)
+Definition has_special (p : str) : bool := existsb (fun c => (c =? c_star) || (c =? c_qm)) p.
+Definition as_in_list (or_as_in allow_wild : bool) (pats : list str) : bool :=
+  or_as_in && (allow_wild || negb (existsb has_special pats)).
+Definition quoted (p : str) : str := [c_dq] ++ p ++ [c_dq].
+Definition render_expanded (or_as_in allow_wild : bool) (pats : list str) : str :=
+  if as_in_list or_as_in allow_wild pats
+  then [102; c_space; 105; 110; c_space; c_lpar] ++ join [44; c_space] (map quoted pats) ++ [c_rpar]
+  else let q := join [c_space; 111; 114; c_space] (map (fun p => [102; c_eq] ++ quoted p) pats) in
+       match pats with
+       | _ :: _ :: _ => [c_lpar] ++ q ++ [c_rpar]
+       | _ => q
+       end.
